@@ -92,13 +92,16 @@ def run(shard, tier, acc):
     tree.rmtree(td)
 
 
-LINE_SCRIPTS = [[''], ['h'], ['', '']]
+LINE_SCRIPTS = [[''], ['h'], ['', ''], ['q']]
 LINE_PARTS = 8
 
 
 def line_shards(tier):
-    ks = (0,) if tier == 'quick' else range(len(LINE_SCRIPTS))
-    return [('lines', i, k, part) for i in (0, 2) for k in ks for part in range(LINE_PARTS)]
+    if tier == 'quick':
+        combos = [(0, 0), (2, 0), (0, 3)]
+    else:
+        combos = [(i, k) for i in (0, 2) for k in range(len(LINE_SCRIPTS))]
+    return [('lines', i, k, part) for i, k in combos for part in range(LINE_PARTS)]
 
 
 def run_lines(shard, tier, acc):
@@ -121,6 +124,24 @@ def run_lines(shard, tier, acc):
         if U.exc:
             raise RuntimeError('harness: reference run failed: ' + U.exc)
         ref, total = U.stdout, U.line_events
+        refset = set(ref)
+        valid = set(range(len(ref) + 1))
+        if script == ['q']:
+            # legal cut positions: pre-terminal boundaries and every position inside a Markov pre-terminal (and, in a resumed session, inside the
+            # remainder of the interrupted one, which comes first)
+            valid, pos, first = {0}, 0, True
+            for e in U.events:
+                if e[0] == 'omen_restore':
+                    for kk in range(1, (e[1] or 0) + 1):
+                        valid.add(pos + kk)
+                    pos += (e[1] or 0)
+                    valid.add(pos)
+                elif e[0] == 'pt':
+                    if e[1][0][0][0] == 'M':
+                        for kk in range(1, e[2] + 1):
+                            valid.add(pos + kk)
+                    pos += e[2]
+                    valid.add(pos)
         acc.count('line_boundaries_%s_spec%d' % (name, i), total if (k == 0 and part == 0) else 0)
         for n in range(1, total + 1):
             if n % LINE_PARTS != part:
@@ -130,6 +151,36 @@ def run_lines(shard, tier, acc):
             acc.evals += 1
             acc.transitions += 1
             case = {'layer': 'lines', 'spec': i, 'script': script, 'session': name, 'line_boundary': n}
+            if script == ['q'] and not r.exc:
+                # a quit that arrives at this line boundary: the stream stops at a legal place, the session is saved, and the saved session
+                # owes exactly what is missing - nothing of the uninterrupted stream may fall between the two runs
+                acc.nontrivial += 1
+                out = r.stdout
+                if 'Exit command received' not in r.stderr and out != ref:
+                    acc.fail(case, 'quit at line boundary %d (%s session): the stream stops after %d of %d guesses without the quit being acknowledged' % (n, name, len(out), len(ref)), 'line-cut')
+                    continue
+                if out != ref[:len(out)]:
+                    acc.fail(case, 'quit at line boundary %d (%s session): stream %r is not a prefix of the uninterrupted stream' % (n, name, out[-3:]), 'line-altered')
+                    continue
+                if len(out) not in valid:
+                    acc.fail(case, 'quit at line boundary %d (%s session) cut the stream after %d guesses, inside a dictionary pre-terminal' % (n, name, len(out)), 'line-cut-inside-preterminal')
+                    continue
+                if r.sav_raw is None:
+                    acc.fail(case, 'quit at line boundary %d (%s session) after %d guesses left no save file' % (n, name, len(out)), 'line-nosave')
+                    continue
+                S.set_session(td, r.sav_raw, r.omn)
+                B = S.run_guesser(td, ['-r', 'v', '--load'])
+                acc.evals += 1
+                if B.exc:
+                    acc.fail(case, 'the session saved by a quit at line boundary %d (%s session, %d guesses) cannot be resumed: %s' % (n, name, len(out), B.exc.strip().splitlines()[-1]), 'line-crash')
+                    continue
+                have = set(out) | set(B.stdout)
+                lost = [l for l in ref if l not in have]
+                foreign = [l for l in B.stdout if l not in refset]
+                if lost or foreign:
+                    acc.fail(case, 'quit at line boundary %d (%s session, %d guesses printed): %d guesses of the uninterrupted stream appear neither before the quit nor in the resumed run (e.g. %r); '
+                             'foreign lines in the resumed run: %r' % (n, name, len(out), len(lost), lost[:3], foreign[:3]), 'line-lost-across-quit')
+                continue
             if r.exc:
                 acc.fail(case, 'request %r served at line boundary %d of the generating thread (%s session) made the run fail: %s' % (script, n, name, r.exc.strip().splitlines()[-1]),
                          'line-crash')
